@@ -15,6 +15,15 @@ claim("C11", "HIR structural-dominance guard inventory + decision-table extracti
       "dominates success; verify() requires a protected header with alg; JSON containers deny unknown fields. The statement is a decision table; the rules extract it from the code.",
       "serde's handling of duplicate member names inside one JSON header object.", "DESIGN.md §7 C11")
 
+claim("C01", "HIR argument-provenance (origin) analysis + MIR success-edge dominance + construction-site enumeration + decision tables",
+      "Decides on every path of the decoder and verifiers: the signing input is create_message(bytes of the received protected segment, received payload) with "
+      "header,'.',payload appended in that order and nothing re-serialised; JwsValidationItem/DecodedJws are constructed at exactly one site each and never mutated; "
+      "alg and b64 are read only from the protected header; Ok(DecodedJws) is dominated by the success edges of Jwk::check_alg(protected alg) and JwsVerifier::verify(input built "
+      "from the item's own signing input/signature, caller's key); check_alg and expand_payload decision tables; claims = decode_b64(payload) iff b64 absent/true else the payload "
+      "itself; the three concrete verifiers return Ok only from the success edge of the crypto verify over (input.signing_input, input.decoded_signature, public_key) and the alg "
+      "dispatch tables; no caller drops the verification result. Necessary structural conditions of the binding, not an execution of signatures.",
+      "that the crypto libraries reject every mutated message/signature; base64 decoder strictness.", "DESIGN.md §7 C01")
+
 for _p, _r in {
     "C01": "rules not yet implemented in this revision (planned, DESIGN §7)", "C02": "rules not yet implemented in this revision",
     "C03": "rules not yet implemented in this revision", "C04": "rules not yet implemented in this revision",
